@@ -341,4 +341,7 @@ Resumable ==
 
 (* within one process the published floor never moves down *)
 FloorMonotone == [][(alive /\ alive' /\ act'.name # "Restart") => floor' >= floor]_vars
+
+(* a restart changes nothing durable and never publishes a floor above the oldest retained block *)
+RestartIsNoOp == [][act'.name = "Restart" => (disk' = disk /\ floor' <= Oldest(disk))]_vars
 =============================================================================
